@@ -85,13 +85,20 @@ func NewParser(srcPath, dstPath string) (*Parser, error) {
 	if fileSrc == nil && parseErr != nil {
 		return nil, logger.Errorf("%v: %v", srcPath, parseErr)
 	}
+
+	// The names of imported packages as declared by their package clauses.
+	pkgNames := make(map[string]string)
+	for path, imp := range pkgs[0].Imports {
+		pkgNames[path] = imp.Name
+	}
+
 	return &Parser{
 		srcPath: fileSet.Position(fileSrc.Pos()).Filename,
 		fset:    fileSet,
 		file:    fileSrc,
 		pkg:     pkgs[0],
 		opts:    option.NewOptions(),
-		imports: util.NewImportNames(fileSrc.Imports),
+		imports: util.NewImportNames(fileSrc.Imports, pkgNames),
 	}, nil
 }
 
